@@ -1701,7 +1701,7 @@ def percent_form(node):
             return None
     else:
         return None
-    right = args[0] if len(args) == 1 and not isinstance(args[0], ast.Tuple) else ast.Tuple(elts=args, ctx=ast.Load())
+    right = ast.Tuple(elts=args, ctx=ast.Load())          # always a tuple: `'%s' % x` would unpack a tuple-valued x
     return ast.copy_location(ast.BinOp(left=ast.copy_location(ast.Constant(value=out), node), op=ast.Mod(), right=right), node)
 
 
